@@ -1,4 +1,7 @@
 import CovfieModel.Model.Stack
+import CovfieModel.Props.C01
+import CovfieModel.Props.C02
+import CovfieModel.Props.C03
 import CovfieModel.Lemmas.Strided
 import CovfieModel.Lemmas.NdMap
 import CovfieModel.Lemmas.MortonList
@@ -68,4 +71,122 @@ theorem morton_array_safe (cv : Conv) (sz c : List Nat) (cells : List (List Num)
   refine ⟨cells[mortonLoop c], ?_, hlt⟩
   simp only [eval, layoutL, mapE_natOf_coordOf]
   exact arrayB_in_range cells _ hlt
+end Covfie.C15
+
+namespace Covfie.C15
+/-! ## Every storage order, and the interpolator above it -/
+
+/-- any storage order over an array: one in-range cell is touched -/
+theorem layout_array_safe (idx : List Nat → Nat) (cells : List (List Num)) (c : List Nat) (h : idx c < cells.length) :
+    layoutL idx (arrayB cells) (coordOf c) = .ok (cells[idx c], [idx c]) := by
+  simp only [layoutL, mapE_natOf_coordOf]
+  exact arrayB_in_range cells _ h
+
+theorem mapE_ok_of_forall {α β ε} (f : α → Except ε β) (Q : β → Prop) (l : List α)
+    (h : ∀ a ∈ l, ∃ b, f a = .ok b ∧ Q b) : ∃ bs, mapE f l = .ok bs ∧ ∀ b ∈ bs, Q b := by
+  induction l with
+  | nil => exact ⟨[], rfl, by simp⟩
+  | cons a as ih =>
+    obtain ⟨b, hb, qb⟩ := h a List.mem_cons_self
+    obtain ⟨bs, hbs, qbs⟩ := ih (fun x hx => h x (List.mem_cons_of_mem _ hx))
+    refine ⟨b :: bs, by simp [mapE, hb, hbs], ?_⟩
+    intro x hx
+    rcases List.mem_cons.mp hx with rfl | hx
+    · exact qb
+    · exact qbs x hx
+
+/-- the interpolator is safe whenever each of its `2^N` corner lookups is: it fails nowhere and touches only
+    cells the corner lookups touch -/
+theorem linear_safe (bk : Backend) (c : List Num) (parts : List (Nat × Rat)) (hp : mapE truncIdx c = .ok parts)
+    (P : Nat → Prop)
+    (hb : ∀ bs ∈ corners c.length, ∃ v t, bk (addBits (parts.map (·.1)) bs) = .ok (v, t) ∧ ∀ i ∈ t, P i) :
+    ∃ v t, linearL bk c = .ok (v, t) ∧ ∀ i ∈ t, P i := by
+  unfold linearL
+  rw [hp]
+  simp only []
+  obtain ⟨rs, hrs, hq⟩ := mapE_ok_of_forall (cornerQuery bk (parts.map (·.1))) (fun r => ∀ i ∈ r.2.2, P i)
+    (corners c.length) (by
+      intro bs hbs
+      obtain ⟨v, t, hvt, hP⟩ := hb bs hbs
+      exact ⟨(bs, (v, t)), by simp [cornerQuery, hvt], hP⟩)
+  rw [hrs]
+  refine ⟨_, _, rfl, ?_⟩
+  intro i hi
+  obtain ⟨r, hr, hir⟩ := List.mem_flatMap.mp hi
+  exact hq r hr i hir
+
+theorem corners_mem_length (N : Nat) (bs : List Bool) (h : bs ∈ corners N) : bs.length = N := by
+  induction N generalizing bs with
+  | zero => simp [corners] at h; subst h; rfl
+  | succ n ih =>
+    simp only [corners, List.mem_flatMap] at h
+    obtain ⟨cs, hcs, hb⟩ := h
+    simp at hb
+    rcases hb with rfl | rfl <;> simp [ih cs hcs]
+
+theorem addBits_eq_coordOf (is : List Nat) (bs : List Bool) :
+    addBits is bs = coordOf (List.zipWith (fun i b => i + (if b then 1 else 0)) is bs) := by
+  induction is generalizing bs with
+  | nil => simp [addBits, coordOf]
+  | cons i is ih =>
+    cases bs with
+    | nil => simp [addBits, coordOf]
+    | cons b bs =>
+      have := ih bs
+      simp only [addBits, coordOf] at this ⊢
+      simp
+
+/-- **linear interpolation over a row-major array**: for coordinates whose integer parts `i_k` satisfy
+    `i_k + 1 < extent_k` (i.e. `0 ≤ x_k < extent_k − 1`) the lookup hits none of the modelled UB conditions and
+    every one of the `2^N` cells it reads lies inside the storage -/
+theorem linear_strided_array_safe (cv : Conv) (w : Nat) (sz : List Nat) (cells : List (List Num)) (c : List Num)
+    (parts : List (Nat × Rat)) (hp : mapE truncIdx c = .ok parts)
+    (hbox : InBox sz ((parts.map (·.1)).map (· + 1)))
+    (hlen : cells.length = prod sz) (hfit : prod sz ≤ 2^w) :
+    ∃ v t, eval cv (.linear (.strided w .array)) (.thin (.sized sz (.array cells))) c = .ok (v, t) ∧
+      ∀ i ∈ t, i < cells.length := by
+  simp only [eval]
+  apply linear_safe _ c parts hp
+  intro bs hbs
+  have hl : bs.length = (parts.map (·.1)).length := by
+    rw [corners_mem_length _ _ hbs, List.length_map, C02.mapE_length truncIdx c parts hp]
+  have hin := C03.neighbours_in_box sz (parts.map (·.1)) bs hbox hl
+  rw [addBits_eq_coordOf]
+  have hlt : stridedIdx sz (List.zipWith (fun i b => i + (if b then 1 else 0)) (parts.map (·.1)) bs) < cells.length := by
+    rw [hlen]; exact strided_lt sz _ hin
+  have e := layout_array_safe (stridedIdxW w sz) cells _ (by rw [strided_nowrap w sz _ hin hfit]; exact hlt)
+  refine ⟨_, _, e, ?_⟩
+  intro i hi
+  simp only [List.mem_singleton] at hi
+  rw [hi, strided_nowrap w sz _ hin hfit]; exact hlt
+
+/-- Hilbert-backed array field: an in-range coordinate touches one cell inside the `4^k` curve storage -/
+theorem hilbert_array_safe (cv : Conv) (sx sy x y k : Nat) (cells : List (List Num))
+    (hk : hilN sx sy = 2^k) (hk63 : k ≤ 63) (hx : x < sx) (hy : y < sy) (hsx : sx ≤ 2^k) (hsy : sy ≤ 2^k)
+    (hlen : cells.length = 4^k) :
+    ∃ v, eval cv (.hilbert .array) (.sized [sx, sy] (.array cells)) (coordOf [x, y]) =
+        .ok (v, [hilbertIdx [sx, sy] [x, y]]) ∧ hilbertIdx [sx, sy] [x, y] < cells.length := by
+  have hlt : hilbertIdx [sx, sy] [x, y] < cells.length := by
+    rw [hlen]; exact C01.hilbert_in_storage sx sy x y k hk hk63 hx hy hsx hsy
+  exact ⟨_, by simp only [eval]; exact layout_array_safe _ cells _ hlt, hlt⟩
+
+/-- BMI2 Morton over an array: same cell as the portable loop, inside the storage -/
+theorem mortonT_array_safe (cv : Conv) (sz c : List Nat) (cells : List (List Num)) (k : Nat)
+    (hc : InBox sz c) (hN : 0 < sz.length) (hk : ∀ s ∈ sz, s ≤ 2^k) (hk64 : k ≤ 64 / sz.length)
+    (hlen : cells.length = 2^(k * sz.length)) :
+    ∃ v, eval cv (.mortonT .array) (.sized sz (.array cells)) (coordOf c) = .ok (v, [mortonLoop c]) ∧
+         mortonLoop c < cells.length := by
+  have hl := InBox_length sz c hc
+  have hb : ∀ j, j < c.length → c.getD j 0 < 2^k := C01.inBox_getD_lt sz c hc _ hk
+  have hlt : mortonLoop c < cells.length := by
+    rw [hlen, ← hl]; exact mortonLoop_lt c k (by omega) hb
+  have he : mortonPdep c = mortonLoop c := by
+    apply mortonPdep_eq_loop c (by omega)
+    intro j hj
+    exact Nat.lt_of_lt_of_le (hb j hj) (Nat.pow_le_pow_right (by omega) (by rw [hl]; exact hk64))
+  refine ⟨cells[mortonLoop c], ?_, hlt⟩
+  simp only [eval]
+  have := layout_array_safe mortonPdep cells c (by rw [he]; exact hlt)
+  simpa only [he] using this
+
 end Covfie.C15
